@@ -1,0 +1,8 @@
+//go:build !verif
+
+package vm
+
+import "github.com/skx/evalfilter/v2/code"
+
+// verifStep is a hook for the verification harness (build tag `verif`).
+func verifStep(vm *VM, ip int, op code.Opcode, arg int) {}
